@@ -361,7 +361,7 @@ impl Prop for C11 {
     }
 
     fn rule(&self) -> String {
-        "cases = (C04's generated tree and archive options; source kind FileSystem / Zip / Tar / Embedded (macro expansion code) / in-memory; element type with extensions [txt] | [txt, x] | [\"\"] | [bin, txt] | Arc of the second | a hand-written DirLoadable whose sub_directories skips directories named a*/d*, plain and in Arc (both must list the same subtree); \
+        "cases = (C04's generated tree and archive options (incl. an entry without an id in one directory - archive member `backup.tar.x`, on disk a file with a non UTF-8 name - which no listing may show or stumble over); source kind FileSystem / Zip / Tar / Embedded (macro expansion code) / in-memory; element type with extensions [txt] | [txt, x] | [\"\"] | [bin, txt] | Arc of the second | a hand-written DirLoadable whose sub_directories skips directories named a*/d*, plain and in Arc (both must list the same subtree); \
          a set of unreadable directories (read_dir fails for them and everything below); a subset of ids loaded beforehand; directories to query incl. the root and missing ones). \
          Oracle from the tree: load_dir(d).ids() is the sorted duplicate-free list of stems of the files directly in d carrying one of the extensions; load_rec_dir(d).ids() as a set is the union over d and the readable directories below, without duplicates; \
          iter yields one loaded handle per id; iter_cached yields exactly the listed ids that are cached; missing or unreadable directories are errors; unreadable sub-directories do not hide their siblings. \
@@ -429,7 +429,9 @@ impl Prop for C11 {
             },
             SrcKind::Fs | SrcKind::Embedded => {
                 let dir = trees::tmpdir("c11");
-                if let Err(e) = m.write_disk(&dir) {
+                let written = m.write_disk(&dir);
+                trees::write_junk_on_disk(&m, &c.opts, &dir);
+                if let Err(e) = written {
                     out.fail("harness", format!("writing the tree failed: {e}"));
                 } else if c.src == SrcKind::Fs {
                     match FileSystem::new(&dir) {
@@ -454,6 +456,9 @@ impl Prop for C11 {
         }
         if flags.2 {
             out.label("unreadable-directory");
+        }
+        if c.opts.junk.is_some() {
+            out.label("entry-without-id");
         }
         out.label(format!("src:{:?}", c.src));
         out.label(format!("elem:{}", ["txt", "txt+x", "empty-ext", "bin+txt", "arc", "custom-dirloadable"][(c.elem % 6) as usize]));
